@@ -151,6 +151,17 @@ def cases(tier, seed):
         out.append({'k': 'bench', 'text': t, 'K': 1, 'tag': 'bench:%s/tied' % gate})
     t = 'INPUT(a)\nINPUT(b)\nOUTPUT(q)\nOUTPUT(o)\nq = DFF(n)\nn = XOR(a, q)\no = NAND(q, b)\n'
     out.append({'k': 'bench', 'text': t, 'K': 4, 'tag': 'bench:DFF'})
+    # the order of the lines of a .bench file is free: a DFF defined after / before the gates that read it, its output an
+    # OUTPUT or an internal signal
+    for order in ('after', 'before'):
+        for q_is_output in (False, True):
+            dff = 'q = DFF(n)\n'
+            gates = 'n = XOR(q, en)\ny = AND(q, a)\n'
+            t = 'INPUT(en)\nINPUT(a)\nOUTPUT(y)\n' + ('OUTPUT(q)\n' if q_is_output else '') + (gates + dff if order == 'after' else dff + gates)
+            out.append({'k': 'bench', 'text': t, 'K': 4, 'tag': 'bench:DFF-%s-readers%s' % (order, ':output' if q_is_output else '')})
+    # two flip-flops in a ring, each defined before the other is
+    t = 'INPUT(a)\nOUTPUT(y)\np = DFF(q2)\nq2 = XOR(q, a)\nq = DFF(p)\ny = OR(p, q)\n'
+    out.append({'k': 'bench', 'text': t, 'K': 4, 'tag': 'bench:DFF-ring'})
     out += repo_texts()
     # invocation scope: a sample of the texts again through the documented block= argument under a foreign working block
     pick = [c for c in out if c['tag'] in ('hier', 'names:q_reg', 'bench:DFF', 'vector3', 'latch-shared-d', 'cell:$_DFFE_PP0P_',
